@@ -40,7 +40,8 @@ RULE = ("(i) decision logic: a REAL Reweighter on a real StateManager whose _com
         "warm-up iteration, beta_k = 0 for k < ess_ratio in both modes, recorded ESS = ESS at the recorded beta, same weights to trainer and "
         "resampler); non-trivial = the run left beta = 0. (viii) resume-run: a seeded run with save_every=2 is completed, then continued three "
         "ways — run(resume_state_path=mid-run checkpoint) on a new sampler, load_state()+run() on a new sampler (the branch added in /repo aeb0399), "
-        "a second run() with a larger n_total on the same sampler — with the observers of (iv) on the continuation: first beta_prev == restored beta "
+        "a second run() with a larger n_total on the same sampler, and an EARLIER checkpoint loaded back into the SAME used sampler then run() / "
+        "sample() calls (the step components are objects and have seen the whole schedule) — with the observers of (iv) on the continuation: first beta_prev == restored beta "
         "(bit-exact), history length and iter continue, every continued iteration replays bit-for-bit in the Float model, the schedule never "
         "decreases, and for path/load the resumed schedule equals the uninterrupted one bit-for-bit; non-trivial = the continuation ran >= 1 iteration. "
         "(x) late-history: the REAL Reweighter.run (two consecutive steps, a batch committed in between) on real StateManager histories that are "
@@ -829,6 +830,12 @@ RESUME_CONFIGS = [
     dict(seed=14, vv=0.1, n_particles=16, ess_ratio=2.0, n_total=48, how="path"),
     dict(seed=15, vv=None, n_particles=16, ess_ratio=2.0, n_total=48, how="extend"),
     dict(seed=16, vv=0.5, n_particles=16, ess_ratio=2.0, n_total=48, how="extend"),
+    # an EARLIER checkpoint loaded back into the SAME, already used sampler object (its step components — a Reweighter is an object
+    # and may carry state — have seen the whole run), then continued with run() / with sample() calls
+    dict(seed=17, vv=0.5, n_particles=32, ess_ratio=2.0, n_total=96, how="reload"),
+    dict(seed=18, vv=None, n_particles=16, ess_ratio=2.0, n_total=64, how="reload"),
+    dict(seed=19, vv=0.5, n_particles=16, ess_ratio=2.0, n_total=64, how="reload_sample", like_scale=25.0),
+    dict(seed=20, vv=0.1, n_particles=16, ess_ratio=3.0, n_total=48, how="reload_sample"),
 ]
 
 
@@ -837,6 +844,8 @@ def _resume_run(cfg):
          path    a NEW sampler: run(resume_state_path=<a checkpoint from the middle of A>)
          load    a NEW sampler: load_state(<that checkpoint>) then run()                      (the branch added in /repo aeb0399)
          extend  the SAME sampler: a second run() with a larger n_total                        (same branch)
+         reload / reload_sample   the SAME sampler after its run completed: load_state(<an EARLY checkpoint of that run>), then run()
+                 resp. up to 8 sample() calls — the step components of the object have already been through the whole schedule
        returns a dict with A's recorded schedule, the restored state and the observed iterations of the continuation"""
     import shutil
     import tempfile
@@ -865,16 +874,28 @@ def _resume_run(cfg):
             if not files:
                 out["error"] = "run A wrote no periodic checkpoint"
                 return out
-            path = os.path.join(d, files[len(files) // 2])
+            same = cfg["how"] in ("reload", "reload_sample")
+            path = os.path.join(d, files[(len(files) // 3) if same else (len(files) // 2)])
             with open(path, "rb") as fh:
                 dd = dill.load(fh)
             out["saved_beta"], out["saved_iter"] = float(dd["_current"]["beta"]), int(dd["_current"]["iter"])
             out["saved_len"] = len(dd["_history"]["beta"])
-            with _quiet():
-                b = witnesses._mk_sampler(**kw)
+            if same:
+                b = a
+            else:
+                with _quiet():
+                    b = witnesses._mk_sampler(**kw)
             its = _instrument(b, 60)
             if cfg["how"] == "path":
                 err = _run_quiet(lambda: b.run(n_total=cfg["n_total"], progress=False, resume_state_path=path))
+            elif cfg["how"] == "reload_sample":
+                def go_s():
+                    b.load_state(path)
+                    for _ in range(8):
+                        b.sample()
+                        if float(b.state.get_current("beta")) >= 1.0:
+                            break
+                err = _run_quiet(go_s)
             else:
                 def go():
                     b.load_state(path)
@@ -889,33 +910,52 @@ def _resume_run(cfg):
         shutil.rmtree(d, ignore_errors=True)
 
 
-def _resume_problem(r):
-    """what C05 says about a continued run (theorems C05_resume_schedule / C05_continue_schedule / C05_resume_exact), on the real run"""
+def _resume_property_problem(r):
+    """C05's OWN clauses on every continued / resumed iteration of the real run (independent recomputation from the history the
+       iteration started from): beta_prev <= beta <= 1; once beta advances the pool ESS at the new beta is >= the target (ESS mode) resp.
+       beta is not beyond the ESS-limited temperature (volume-variation mode); recorded ESS / evidence / returned weights are the
+       pool's at the recorded beta; the recorded schedule never decreases."""
+    if "error" in r:
+        return r["error"]
+    rw = r["rw"]
+    target = rw.ess_ratio * rw.n_particles
+    for k, it in enumerate(r["its"]):
+        if it["hist_len"] == 0:
+            continue
+        betas, zs, batches = it["hist"]
+        msg = _check_iteration(betas, zs, batches, float(it["prev"]), it["beta"], it["ess"], it["logz"], it["weights"], target,
+                               rw.volume_variation, rw.BETA_TOLERANCE)
+        if msg:
+            return f"continued iteration {k} (history of {it['hist_len']} iterations, beta_prev = {float(it['prev'])!r}): {msg}"
+        if not it.get("train_same", True) or not it.get("res_same", True):
+            return f"continued iteration {k}: Trainer.run / Resampler.run did not receive the weights Reweighter.run returned"
+    whole = r["betas_B_hist"]
+    if any(b2 < b1 for b1, b2 in zip(whole, whole[1:])) or any(not (0.0 <= b_ <= 1.0) for b_ in whole):
+        return f"the recorded schedule of the continued run is not a non-decreasing sequence in [0, 1]: {whole}"
+    return None
+
+
+def _resume_internal_problem(r):
+    """model-vs-code expectations about HOW a run is continued (theorems C05_resume_schedule / C05_continue_schedule / C05_resume_exact
+       describe the code as it is now).  These are correspondence matters: a disagreement is never by itself a failing input of C05."""
     if "error" in r:
         return r["error"]
     cfg, its = r["cfg"], r["its"]
     if not its:
-        return None if cfg["how"] == "extend" else "the resumed run executed no iteration although the checkpoint is from the middle of the run"
+        return None if cfg["how"] == "extend" else "the continuation executed no iteration although the checkpoint is from the middle of the run"
     first = its[0]
     if first["hist_len"] != r["saved_len"]:
         return f"the continuation started with {first['hist_len']} stored iterations, the restored state holds {r['saved_len']}"
     if _canon(first["prev"]) != _canon(r["saved_beta"]):
         return (f"the continuation started its schedule from beta = {first['prev']!r}; the restored state was at beta = "
-                f"{r['saved_beta']!r} (the schedule restarted)")
+                f"{r['saved_beta']!r}")
     if first["iter_before"] != r["saved_iter"]:
         return f"the continuation numbered its first iteration from iter = {first['iter_before']}, restored iter = {r['saved_iter']}"
-    last = r["saved_beta"]
-    for k, it in enumerate(its):
-        if not (last <= it["beta"] <= 1.0):
-            return f"continued iteration {k}: beta went from {last!r} to {it['beta']!r}"
-        last = it["beta"]
-    whole = r["betas_B_hist"]
-    if any(b2 < b1 for b1, b2 in zip(whole, whole[1:])):
-        return f"the recorded schedule of the continued run decreases: {whole}"
     if cfg["how"] in ("path", "load") and not cfg.get("clustering", False):
-        # same stream position, no trainer state: the continuation IS the remainder of run A (C05_resume_exact)
+        # same stream position, no trainer state: the model says the continuation IS the remainder of run A (C05_resume_exact)
+        whole = r["betas_B_hist"]
         if [_canon(b) for b in whole] != [_canon(b) for b in r["betas_A"]]:
-            return f"resumed schedule {whole} differs from the uninterrupted schedule {r['betas_A']}"
+            return f"[model-vs-code] resumed schedule {whole} differs from the uninterrupted schedule {r['betas_A']}"
     return None
 
 
@@ -926,29 +966,34 @@ def _corr_resume(tier, drv):
         rng = common.rng_for("C05.resume")
         for i in range(18):
             cfgs.append(dict(seed=300 + i, vv=rng.choice([None, 0.5, 0.1, 0.05]), n_particles=rng.choice([16, 24]),
-                             ess_ratio=rng.choice([1.0, 2.0, 3.0]), n_total=rng.choice([48, 96]), how=rng.choice(["path", "load", "extend"]),
+                             ess_ratio=rng.choice([1.0, 2.0, 3.0]), n_total=rng.choice([48, 96]), how=rng.choice(["path", "load", "extend", "reload", "reload_sample"]),
                              resample=rng.choice(["mult", "syst"]), like_scale=rng.choice([1.0, 5.0])))
     for cfg in cfgs:
         r = _resume_run(cfg)
         c.count("how:" + cfg["how"])
         c.count("mode:" + ("dyn" if cfg["vv"] is not None else "ess"))
-        prob = _resume_problem(r)
+        prob = _resume_internal_problem(r)
         c.case(("resume", cfg), bool(r.get("its")))
         if prob:
-            c.disagree(input=cfg, impl=prob, model="continues from the restored beta", resume_cfg=cfg)
+            c.disagree(input=cfg, impl=prob, model="continues from the restored state (kind: internal, model-vs-code)", resume_cfg=cfg)
             if "_TimedOut" in prob or "oracle calls within one Reweighter.run" in prob:
                 c.count("remaining_runs_skipped_after_a_non_terminating_run")
                 break
-            continue
+            if "error" in r:
+                continue
         c.count("continued_iterations", len(r["its"]))
         c.count("advances_after_resume", sum(1 for it in r["its"] if it["beta"] != it["prev"]))
+        n0 = len(c.disagreements)
         _compare_iterations(c, cfg, r["its"], r["rw"], drv, first_is_fresh=False)
+        for dgr in c.disagreements[n0:]:
+            dgr.pop("run_cfg", None)
+            dgr["resume_cfg"] = cfg
         c.sample({"config": cfg, "saved_beta": r["saved_beta"], "continued_betas": [it["beta"] for it in r["its"]]}, cap=3)
     return c
 
 
 def oracle_resume(cfg):
-    return _resume_problem(_resume_run(cfg))
+    return _resume_property_problem(_resume_run(cfg))
 
 
 # ================================================================== (iv-c) the last BETA_TOLERANCE of the schedule, real StateManager histories
@@ -956,6 +1001,13 @@ def _late_params(rng):
     """a pool that is steep in beta near the posterior: warm-up batches of very low likelihood, one early level, then several
        batches stored at beta = 1 - delta (delta around BETA_TOLERANCE: inside the last tolerance window, or just outside so that
        the first step moves into it) with log-likelihoods spread over [0, H]; evidence values computed by the StateManager itself"""
+    if rng.random() < 0.35:
+        # mid-schedule pool whose composition CHANGES between two calls of the same Reweighter object: the batch committed in between
+        # lies far higher in likelihood (a newly discovered mode), which lowers the pool ESS at the temperatures visited before —
+        # anything a reweighter remembers from its previous call (a bracket, a limit) is then stale
+        return {"late_seed": rng.randrange(2 ** 31), "vv": rng.choice([None, 0.5, 0.5, 0.1, 0.05]), "ratio": rng.choice([2.0, 2.0, 3.0]),
+                "n": rng.choice([32, 64]), "delta": rng.choice([0.3, 0.6, 0.8, 0.9]), "H": rng.choice([20.0, 60.0, 200.0]),
+                "late": rng.choice([3, 4, 6]), "steps": 3, "between": "higher"}
     return {"late_seed": rng.randrange(2 ** 31), "vv": rng.choice([None, None, None, 0.5, 0.1]), "ratio": rng.choice([2.0, 2.0, 1.0, 3.0]),
             "n": rng.choice([32, 64]), "delta": rng.choice([0.25, 0.5, 0.75, 0.9, 1.5, 1.5, 3.0]) * 1e-4,
             "H": rng.choice([2e4, 7.5e4, 7.5e4, 2e5]), "late": rng.choice([3, 6, 6, 8]), "steps": 2}
@@ -1005,7 +1057,10 @@ def _late_run(p, instrument=False):
         obs.append({"hist": hist, "prev": prev, "beta": sm.get_current("beta"), "ess": sm.get_current("ess"),
                     "logz": sm.get_current("logz"), "weights": np.array(w, dtype=float, copy=True)})
         u = rs.rand(p["n"], 2)
-        sm.update_current({"u": u, "x": u.copy(), "logl": p["H"] * grid, "calls": int(sm.get_current("calls")) + p["n"]})
+        ls = p["H"] * grid
+        if p.get("between") == "higher":
+            ls = p["H"] * (1.0 + 2.0 * (_k + 1)) + 0.25 * p["H"] * grid
+        sm.update_current({"u": u, "x": u.copy(), "logl": ls, "calls": int(sm.get_current("calls")) + p["n"]})
         sm.commit_current_to_history()
     return obs, its, rw, None
 
